@@ -113,10 +113,10 @@ pub fn run(ctx: &Ctx) -> Outcome {
     let mut shapes = std::collections::BTreeSet::new();
     let mut st = SeqStats::default();
     let modes = [CONSTANT, SAMEBIN, MIXED, SPLITTING];
-    let max_n: u64 = ctx.q(90, 400);
+    let max_n: u64 = ctx.q(140, 400);
     let mut idx = 0u64;
     let mut fail: Option<(String, SeqFailure, Json)> = None;
-    'outer: for round in 0..ctx.q(1u64, 6) {
+    'outer: for round in 0..ctx.q(6u64, 40) {
         for &mode in &modes {
             for ins in 0..5u8 {
                 for del in 0..5u8 {
@@ -162,7 +162,7 @@ pub fn run(ctx: &Ctx) -> Outcome {
     }
     // random tree-heavy sequences
     let mut i = 0u64;
-    let target = ctx.q(60u64, 3000);
+    let target = ctx.q(500u64, 6000);
     while fail.is_none() && i < target && ctx.time_left() {
         let mut rng = Rng::derive(ctx.seed ^ 0x6006, ctx.shard, i);
         i += 1;
